@@ -24,3 +24,25 @@ package xbus
 //@   at select#1 assert selidx == 0 ==> len(m.Header) == 4 && be32(m.Header) == p.p.ID()
 //@   at select#1 assert selidx == 0 ==> m.Body == body0 && same_elems(body0)
 //@   at call:Close#1 assert m == nil || selidx == 1
+// ---- generated option contracts (tools/gen_option_contracts.py) ----
+//@ func (*socket).SetOption
+//@   ensures name != protocol.OptionRecvDeadline && name != protocol.OptionWriteQLen && name != protocol.OptionReadQLen ==> result == protocol.ErrBadOption
+//@   ensures name == protocol.OptionRecvDeadline ==> (isnil(result) <==> is_duration(value))
+//@   ensures name == protocol.OptionRecvDeadline && !isnil(result) ==> result == protocol.ErrBadValue
+//@   ensures name == protocol.OptionRecvDeadline && isnil(result) ==> s.recvExpire == int_of(value)
+//@   ensures name == protocol.OptionWriteQLen ==> (isnil(result) <==> is_int(value) && 0 <= int_of(value))
+//@   ensures name == protocol.OptionWriteQLen && !isnil(result) ==> result == protocol.ErrBadValue
+//@   ensures name == protocol.OptionWriteQLen && isnil(result) ==> s.sendQLen == int_of(value)
+//@   ensures name == protocol.OptionReadQLen ==> (isnil(result) <==> is_int(value) && 0 <= int_of(value))
+//@   ensures name == protocol.OptionReadQLen && !isnil(result) ==> result == protocol.ErrBadValue
+//@   ensures name == protocol.OptionReadQLen && isnil(result) ==> s.recvQLen == int_of(value)
+//@   ensures !isnil(result) ==> unchanged(s.recvExpire, s.recvQLen, s.sendQLen)
+//@
+//@ func (*socket).GetOption
+//@   ensures option != protocol.OptionRecvDeadline && option != protocol.OptionWriteQLen && option != protocol.OptionReadQLen && option != protocol.OptionRaw ==> result1 == protocol.ErrBadOption && isnil(result0)
+//@   ensures option == protocol.OptionRecvDeadline ==> isnil(result1) && result0 == iface(s.recvExpire)
+//@   ensures option == protocol.OptionWriteQLen ==> isnil(result1) && result0 == iface(s.sendQLen)
+//@   ensures option == protocol.OptionReadQLen ==> isnil(result1) && result0 == iface(s.recvQLen)
+//@   ensures option == protocol.OptionRaw ==> isnil(result1) && result0 == iface(true)
+//@
+// ---- end generated option contracts ----
